@@ -21,7 +21,7 @@ EXPLANATION = (
     "uninterpreted function: every path that returns an object has pow(g, q, p) == 1 in its path condition."
 )
 TRUSTED = ["primality of the published p, q, Q, L (Miller-Rabin only)", "Hasse's theorem; Lagrange's theorem"]
-ASSUMPTIONS = ["constructor run: q < 2^12, p < 2^16 (bit lengths forked)"]
+ASSUMPTIONS = ["constructor run: q < 2^12, p < 2^16 (bit lengths forked), -2p <= g <= 2p"]
 
 
 def jobs(tier):
@@ -121,8 +121,8 @@ def job_constructor(J, qbits, pbits):
         Flags.pow_stub = stub
         p = SymInt(ctx.fresh("p", 3, 2 ** pbits - 1))
         q = SymInt(ctx.fresh("q", 2, 2 ** qbits - 1))
-        g = SymInt(ctx.fresh("g", 1))
-        ctx.assume(g.t < p.t)
+        g = SymInt(ctx.fresh("g"))          # any integer: zero, negative and unreduced generators included
+        ctx.assume(z3.And(g.t >= -2 * p.t, g.t <= 2 * p.t))
         ctx.data["pqg"] = (p, q, g)
         return G.IntegerGroup(p=p, q=q, g=g)
     for r in J.explore(h, max_paths=qbits * pbits * 4 + 50):
@@ -161,6 +161,13 @@ def oracle_facts():
 def oracle_constructor(p, q, g):
     from spake2.groups import IntegerGroup
     cands = [(p, q, g), (23, 11, 3), (23, 11, 5), (23, 11, 22), (2039, 1019, 3), (23, 11, 1), (47, 23, 5)]
+    # every generator argument from -p to 2p for small moduli (prime and composite q), then zero / unreduced / negative
+    # generators for the shipped moduli
+    for (pp, qq) in ((23, 11), (7, 3), (11, 5), (13, 6), (13, 4), (47, 23), (31, 15)):
+        cands += [(pp, qq, gg) for gg in range(-pp, 2 * pp + 1)]
+    from spake2 import groups as _G
+    for grp in (_G.I1024, _G.I2048, _G.I3072):
+        cands += [(grp.p, grp.q, gg) for gg in (0, grp.p, -1, grp.p - 1, 2, grp.p + 2)]
     for (pp, qq, gg) in cands:
         try:
             IntegerGroup(p=pp, q=qq, g=gg)
